@@ -420,8 +420,8 @@ pub struct IterOut {
 pub const N_FIN: u8 = 13;
 /// `fin >= FIN_EXT` selects the second family of consumption paths
 pub const FIN_EXT: u8 = 221;
-pub const N_FIN_EXT: u8 = 9;
-pub const FIN_EXT_NAMES: [&str; 9] = ["for_each", "rev.for_each", "find", "rfind", "position", "any", "all", "max_by_key", "by_ref.rev.take.count+for_each"];
+pub const N_FIN_EXT: u8 = 13;
+pub const FIN_EXT_NAMES: [&str; 13] = ["for_each", "rev.for_each", "find", "rfind", "position", "any", "all", "max_by_key", "by_ref.rev.take.count+for_each", "nth(usize::MAX-k)", "nth_back(usize::MAX-k)", "skip(usize::MAX-k)", "step_by(usize::MAX-k)"];
 
 pub fn fin_name(fin: u8) -> &'static str {
     if fin >= FIN_EXT {
@@ -503,12 +503,33 @@ where
                 })
                 .map(&mut *f),
             ),
-            _ => {
+            8 => {
                 // partial consumption from the back through an adaptor, then internal iteration
                 let c = it.by_ref().rev().take(k).count();
                 lens.push(c);
                 lens.push(it.len());
                 it.for_each(|x| items.push(f(x)));
+            }
+            // extreme skip counts (index arithmetic must not overflow)
+            9 => {
+                items.extend(it.nth(usize::MAX - k).map(&mut *f));
+                lens.push(it.len());
+                items.extend(it.map(&mut *f));
+            }
+            10 => {
+                items.extend(it.nth_back(usize::MAX - k).map(&mut *f));
+                lens.push(it.len());
+                items.extend(it.map(&mut *f));
+            }
+            11 => {
+                let mut sk = it.skip(usize::MAX - k);
+                items.extend(sk.next().map(&mut *f));
+                lens.push(sk.len());
+            }
+            _ => {
+                let mut st = it.step_by(usize::MAX - k);
+                items.extend(st.next().map(&mut *f));
+                items.extend(st.next().map(&mut *f));
             }
         }
         return (items, lens, 0);
